@@ -1591,3 +1591,210 @@ class RavelLeavesNumpy(PyContract):
         else:
             out.append(('single-dtype-path-only-when-all-dtypes-are-the-common-one', z3.Implies(rng, dtype_of(leaf_at(k)) == to)))
         return out
+
+
+# ======================================================================================================================
+# C03: the reductions are the corresponding folds over tree_leaves / tree_iter of the same tree under the caller's options
+
+leaves_obj = z3.Function('tree_leaves_of', Ref, Ref, Bool, Str, Ref)      # the list tree_leaves(tree, options) returns
+iter_obj = z3.Function('tree_iter_of', Ref, Ref, Bool, Str, Ref)
+
+
+class FoldLike(MapVocabulary):
+    """result = <builtin>(leaves-of-tree-under-the-caller's-options, extras forwarded unchanged)."""
+    builtin = ''
+    source = 'leaves'            # 'leaves' (tree_leaves) | 'iter' (tree_iter)
+    extras = ()                  # names of the parameters forwarded to the builtin
+    missing_param = None         # parameter that may be the MISSING sentinel (then it is not passed on)
+
+    def setup(self, eng, st, fn):
+        super().setup(eng, st, fn)
+        self.entry = st.clone()
+
+    def global_name(self, eng, st, name):
+        if name.endswith('__MISSING') or name == 'MISSING':
+            return z3.Const('MISSING_SENTINEL', Ref)
+        if name in ('sum', 'max', 'min', 'all', 'any', 'isinstance', 'str', 'bytes', 'bytearray'):
+            return BuiltinV(name)
+        return super().global_name(eng, st, name)
+
+    def isinstance(self, eng, st, obj, cls):
+        tag = repr(cls)
+        return z3.Function('isinstance_' + ''.join(ch for ch in tag if ch.isalnum())[:40], Ref, Bool)(obj) if is_z3(obj) else None
+
+    def call(self, eng, st, f, args, kwargs, n, stars):
+        line = n.lineno
+        if isinstance(f, FuncV) and f.name in ('tree_leaves', 'tree_iter'):
+            is_leaf, nil, ns = kwargs.get('is_leaf', PYNONE), kwargs.get('none_is_leaf', z3.BoolVal(False)), kwargs.get('namespace', EMPTY)
+            e_is_leaf, e_nil, e_ns = self.opts(self.entry)
+            eng.oblige(st, 'III', f'{f.name}:forwards-is_leaf', eng.identical(is_leaf, e_is_leaf), line)
+            eng.oblige(st, 'III', f'{f.name}:forwards-none_is_leaf', eng.truth(st, nil) == eng.truth(st, e_nil), line)
+            eng.oblige(st, 'III', f'{f.name}:forwards-namespace', ns_str(ns) == ns_str(e_ns), line)
+            fn = leaves_obj if f.name == 'tree_leaves' else iter_obj
+            s_exc = st.clone()
+            eng.throw(s_exc, 'FlattenError', line)
+            return [(st, fn(args[0], is_leaf if is_z3(is_leaf) else PYNONE, eng.truth(st, nil), ns_str(ns)))]
+        is_fold = (isinstance(f, BuiltinV) and f.name in ('sum', 'max', 'min', 'all', 'any')) or \
+                  (isinstance(f, BoundV) and isinstance(f.obj, OpaqueV) and f.obj.tag == 'module:functools' and f.name == 'reduce')
+        if is_fold:
+            nm = f.name
+            s_exc = st.clone()
+            eng.throw(s_exc, 'FoldError', line)
+            return [(st, StructV('fold', (('op', nm), ('args', TupV(tuple(args))), ('kwargs', TupV(tuple(sorted(kwargs.items(), key=lambda kv: kv[0])))))))]
+        return super().call(eng, st, f, args, kwargs, n, stars)
+
+    def raises(self, eng, st, entry):
+        return {'FlattenError': None, 'FoldError': None}
+
+    def src(self, eng, st, entry):
+        is_leaf, nil, ns = self.opts(entry)
+        fn = leaves_obj if self.source == 'leaves' else iter_obj
+        return fn(entry.env.get('tree'), is_leaf, eng.truth(st, nil), ns_str(ns))
+
+    def post(self, eng, st, entry, ret):
+        if not (isinstance(ret, StructV) and ret.kind == 'fold'):
+            return [('result-is-the-fold', z3.BoolVal(False))]
+        args = ret.get('args').items
+        kw = dict(ret.get('kwargs').items)
+        out = [('uses-the-documented-builtin', z3.BoolVal(ret.get('op') == self.builtin))]
+        pos_leaves = 1 if self.builtin == 'reduce' else 0
+        out.append(('folds-the-leaves-of-the-tree-under-the-callers-options',
+                    z3.BoolVal(len(args) > pos_leaves) if len(args) <= pos_leaves else eng.identical(args[pos_leaves], self.src(eng, st, entry))))
+        if self.builtin == 'reduce':
+            out.append(('reduces-with-the-given-function', eng.identical(args[0], entry.env.get('func'))))
+        given = list(args[pos_leaves + 1:]) + list(kw.values())
+        names = list(self.extras)
+        miss = z3.Const('MISSING_SENTINEL', Ref)
+        for nm in names:
+            v = entry.env.get(nm)
+            passed = kw.get(nm) if nm in kw else (args[pos_leaves + 1 + names.index(nm)] if nm not in ('key', 'default') and len(args) > pos_leaves + 1 + names.index(nm) else None)
+            if nm == self.missing_param:
+                out.append((f'{nm}-is-passed-on-exactly-when-given',
+                            z3.BoolVal(passed is not None) == (v != miss) if is_z3(v) else z3.BoolVal(True)))
+                if passed is not None:
+                    out.append((f'{nm}-is-forwarded-unchanged', eng.identical(passed, v)))
+            else:
+                out.append((f'{nm}-is-forwarded-unchanged', z3.BoolVal(passed is not None) if passed is None else eng.identical(passed, v)))
+        return out
+
+
+def _mk_fold(name, builtin, source='leaves', extras=(), missing=None):
+    cls = type('Fold_' + name, (FoldLike,), {'function': name, 'builtin': builtin, 'source': source, 'extras': extras,
+                                             'missing_param': missing})
+    return pycontract(cls)
+
+
+_mk_fold('tree_reduce', 'reduce', extras=('initial',), missing='initial')
+_mk_fold('tree_max', 'max', extras=('default', 'key'), missing='default')
+_mk_fold('tree_min', 'min', extras=('default', 'key'), missing='default')
+_mk_fold('tree_all', 'all', source='iter')
+_mk_fold('tree_any', 'any', source='iter')
+
+
+# ======================================================================================================================
+# C18: ops.tree_flatten_one_level - the Python twin of one flatten step of the engine
+
+reg_get = z3.Function('register_pytree_node_get', Ref, Str, Ref)          # register_pytree_node.get(cls, namespace=ns) (or None)
+user_pred = z3.Function('is_leaf_predicate_says', Ref, Ref, Bool)
+flatten_result = z3.Function('handler_flatten_result', Ref, Ref, Ref)      # handler.flatten_func(tree) as a tuple object
+h_attr = lambda nm: z3.Function('handler_' + nm, Ref, Ref)
+
+
+@pycontract
+class TreeFlattenOneLevel(PyContract):
+    """tree_flatten_one_level(tree, is_leaf, none_is_leaf, namespace): ValueError exactly when the tree is a leaf by the rules
+    of the engine's step (None with none_is_leaf, the predicate says so, or no handler registered for the EXACT type in the
+    caller's namespace); RuntimeError exactly when the handler's flatten result is not a 2- or 3-tuple or entries and children
+    differ in number; otherwise children / metadata / entries (range(len(children)) when absent) of that result and
+    unflatten_func / path_entry_type / kind of that handler, type = type(tree)."""
+    module = 'optree/ops.py'
+    function = 'tree_flatten_one_level'
+
+    def param(self, eng, st, name):
+        return z3.Const(name, Bool) if name == 'none_is_leaf' else z3.Const(name, Ref)
+
+    def global_name(self, eng, st, name):
+        if name == 'type':
+            return BuiltinV('type')
+        if name == 'register_pytree_node':
+            return OpaqueV('register_pytree_node')
+        if name == 'FlattenOneLevelOutputEx':
+            return OpaqueV('class:FlattenOneLevelOutputEx')
+        return None
+
+    def attribute(self, eng, st, base, attr):
+        if is_z3(base) and base.sort() == Ref and attr in ('flatten_func', 'unflatten_func', 'path_entry_type', 'kind'):
+            return h_attr(attr)(base) if attr != 'flatten_func' else BoundV(base, 'flatten_func')
+        return None
+
+    def to_seq(self, eng, st, v):
+        if is_z3(v) and v.sort() == Ref:
+            st.facts.append(tup_len(v) >= 0)
+            return SeqV(tup_len(v), lambda i, v=v: ref_at(v, i))
+        return None
+
+    def call(self, eng, st, f, args, kwargs, n, stars):
+        line = n.lineno
+        if isinstance(f, BuiltinV) and f.name == 'type' and len(args) == 1:
+            return [(st, py_type_of(args[0]))]
+        if is_z3(f) and f.sort() == Ref:                      # the is_leaf predicate
+            s_exc = st.clone()
+            eng.throw(s_exc, 'CallbackError', line)
+            return [(st, user_pred(f, args[0]))]
+        if isinstance(f, BoundV) and isinstance(f.obj, OpaqueV) and f.obj.tag == 'register_pytree_node' and f.name == 'get':
+            eng.oblige(st, 'III', 'looks-up-the-exact-type-of-the-tree', args[0] == py_type_of(z3.Const('tree', Ref)), line)
+            eng.oblige(st, 'III', 'looks-up-in-the-callers-namespace', ns_str(kwargs.get('namespace', EMPTY)) == ns_str(z3.Const('namespace', Ref)), line)
+            return [(st, reg_get(args[0], ns_str(kwargs.get('namespace', EMPTY))))]
+        if isinstance(f, BoundV) and f.name == 'flatten_func' and is_z3(f.obj):
+            eng.oblige(st, 'III', 'flattens-the-tree-itself', args[0] == z3.Const('tree', Ref), line)
+            s_exc = st.clone()
+            eng.throw(s_exc, 'CallbackError', line)
+            return [(st, flatten_result(f.obj, args[0]))]
+        if isinstance(f, BuiltinV) and f.name in ('tuple', 'list') and args:
+            return [(st, eng.to_seq(st, args[0]))]
+        if isinstance(f, OpaqueV) and f.tag == 'class:FlattenOneLevelOutputEx':
+            return [(st, StructV('output', tuple(sorted(kwargs.items()))))]
+        return None
+
+    def H(self):
+        return reg_get(py_type_of(z3.Const('tree', Ref)), ns_str(z3.Const('namespace', Ref)))
+
+    def is_leaf_case(self, eng, st):
+        tree, pred = z3.Const('tree', Ref), z3.Const('is_leaf', Ref)
+        nil = z3.Const('none_is_leaf', Bool)
+        return z3.Or(z3.And(tree == PYNONE, nil), z3.And(pred != PYNONE, user_pred(pred, tree)), self.H() == PYNONE)
+
+    def raises(self, eng, st, entry):
+        fl = flatten_result(self.H(), z3.Const('tree', Ref))
+        n = tup_len(fl)
+        ent = ref_at(fl, 2)
+        nch = tup_len(ref_at(fl, 0))
+        nent = z3.If(z3.And(n == 3, ent != PYNONE), tup_len(ent), nch)
+        return {'ValueError': self.is_leaf_case(eng, st),
+                'RuntimeError': z3.Or(z3.And(n != 2, n != 3), nch != nent),
+                'CallbackError': None}
+
+    def post(self, eng, st, entry, ret):
+        tree = z3.Const('tree', Ref)
+        fl = flatten_result(self.H(), tree)
+        n = tup_len(fl)
+        out = [('no-error-implies-a-registered-non-leaf', z3.Not(self.is_leaf_case(eng, st))),
+               ('no-error-implies-a-2-or-3-tuple', z3.Or(n == 2, n == 3))]
+        if not (isinstance(ret, StructV) and ret.kind == 'output'):
+            return out + [('returns-the-output-record', z3.BoolVal(False))]
+        d = dict(ret.fields)
+        ch, ent = eng.to_seq(st, d['children']), eng.to_seq(st, d['entries'])
+        k = z3.Int('k!ol')
+        given = z3.And(n == 3, ref_at(fl, 2) != PYNONE)
+        out += [('children-are-the-first-component', z3.And(ch.len == tup_len(ref_at(fl, 0)), z3.Implies(z3.And(0 <= k, k < ch.len), ch.at(k) == ref_at(ref_at(fl, 0), k)))),
+                ('metadata-is-the-second-component', d['metadata'] == ref_at(fl, 1)),
+                ('one-entry-per-child', ent.len == ch.len),
+                ('entries-are-the-third-component-when-given-else-the-child-indices',
+                 (z3.And(z3.Not(given), z3.Implies(z3.And(0 <= k, k < ent.len), ent.at(k) == k)) if z3.is_int(ent.at(k))
+                  else z3.And(given, z3.Implies(z3.And(0 <= k, k < ent.len), ent.at(k) == ref_at(ref_at(fl, 2), k))))
+                 if is_z3(ent.at(k)) else z3.BoolVal(False)),
+                ('unflatten_func-of-the-handler', d['unflatten_func'] == h_attr('unflatten_func')(self.H())),
+                ('type-is-the-exact-type-of-the-tree', d.get('type') == py_type_of(tree) if 'type' in d else z3.BoolVal(False)),
+                ('path_entry_type-of-the-handler', d.get('path_entry_type') == h_attr('path_entry_type')(self.H()) if 'path_entry_type' in d else z3.BoolVal(False)),
+                ('kind-of-the-handler', d.get('kind') == h_attr('kind')(self.H()) if 'kind' in d else z3.BoolVal(False))]
+        return out
